@@ -1,7 +1,7 @@
 ----------------------------- MODULE O2OGenerics -----------------------------
 (* C11: the impl header for a generic deriving type.
      g == [ps   |-> Seq(param)        param \in {"la", "lb", "T", "Tb", "Td", "N", "Nd"}   ('a | 'b: 'a | T | T: Clone | T = u8 | const N: usize | const N: usize = 1)
-           cargs|-> "none" | "same" | "concrete" | "foreign" | "static"                     (generic arguments written on the counterpart path)
+           cargs|-> "none" | "same" | "concrete" | "foreign" | "foreign2" | "static"   ("foreign2": the foreign lifetime occurs twice, D<'x, 'x>)                     (generic arguments written on the counterpart path)
            wc   |-> "none" | "default" | "dedicated" | "both"]                              (#[where_clause] instructions)
    Header(g, k) is what the impl for conversion kind k must declare (README "Generics", "Where clauses", "Reference with lifetime"). *)
 EXTENDS O2OSyntax, TLC
@@ -22,14 +22,17 @@ OwnLts(g) == SelectSeq(g.ps, IsLt)
 \* lifetimes written in the counterpart's path
 CpLts(g) == CASE g.cargs = "same" -> [i \in DOMAIN OwnLts(g) |-> PName(OwnLts(g)[i])]
               [] g.cargs = "foreign" -> <<"'x">>
+              [] g.cargs = "foreign2" -> <<"'x", "'x">>
               [] g.cargs = "static" -> <<"'static">>
               [] OTHER -> <<>>
 \* lifetimes that occur only in the counterpart's path must be declared on the impl ('static is not a parameter)
-CpOnlyLts(g) == SelectSeq(CpLts(g), LAMBDA x : x # "'static" /\ \A i \in DOMAIN g.ps : PName(g.ps[i]) # x)
+RECURSIVE Dedup(_, _)
+Dedup(s, seen) == IF s = <<>> THEN <<>> ELSE IF s[1] \in seen THEN Dedup(Tail(s), seen) ELSE <<s[1]>> \o Dedup(Tail(s), seen \cup {s[1]})
+CpOnlyLts(g) == Dedup(SelectSeq(CpLts(g), LAMBDA x : x # "'static" /\ \A i \in DOMAIN g.ps : PName(g.ps[i]) # x), {})
 \* the lifetimes the fresh 'o2o must outlive: those of the type the result borrows into
 RefLts(g, k) == IF ~IsRef(k) THEN <<>>
                 ELSE IF IsFrom(k) THEN [i \in DOMAIN OwnLts(g) |-> PName(OwnLts(g)[i])]
-                ELSE SelectSeq(CpLts(g), LAMBDA x : x # "'static")      \* 'static is not a parameter: nothing to outlive
+                ELSE Dedup(SelectSeq(CpLts(g), LAMBDA x : x # "'static"), {})      \* 'static is not a parameter: nothing to outlive
 NeedsO2O(g, k) == RefLts(g, k) # <<>>
 
 \* declared parameters of the impl: [k, name, bounds, default]  -- the type's own (bounds kept, defaults dropped: an impl cannot carry them),
